@@ -339,40 +339,148 @@ def real_patch(old, new, c):
 
 
 # ---------------------------------------------------------------- checks
-def check_completion(hwi, t):
-    """-> list of (key, text, expected, actual)"""
-    c = context(hwi)
+def compare_completion(t, m, exp, defaults, prefix="bounded:C17:", note=""):
+    """the completion m that annet produced against the completion exp the statement asks for -> [(key, text, expected, actual)]"""
     out = []
-    m = complete(t, c)
-    exp = expected_completion(t, c["rules"])
-    defaults = applicable_defaults(t, c["rules"])
 
     def walk(tt, mm, ee, path):
         for row in tt:
             if row not in mm:
-                out.append(("bounded:C17:explicit-line-lost", "explicit row %r at %r is not in the completion" % (row, list(path)),
+                out.append((prefix + "explicit-line-lost", "explicit row %r at %r is not in the completion%s" % (row, list(path), note),
                             plain(exp), plain(m)))
         for row in mm:
             if row not in ee:
                 if row in defaults.get(path, ()):
-                    out.append(("bounded:C17:default-added-despite-explicit",
-                                "default %r added at %r although a row of its kind is there" % (row, list(path)), plain(exp), plain(m)))
+                    out.append((prefix + "default-added-despite-explicit",
+                                "default %r added at %r although a row of its kind is there%s" % (row, list(path), note), plain(exp), plain(m)))
                 else:
-                    out.append(("bounded:C17:extra-row", "row %r at %r is neither explicit nor an applicable default" % (row, list(path)),
-                                plain(exp), plain(m)))
+                    out.append((prefix + "extra-row", "row %r at %r is neither explicit nor an applicable default of this device%s"
+                                % (row, list(path), note), plain(exp), plain(m)))
         for row in ee:
             if row not in mm:
                 if row not in tt:
-                    out.append(("bounded:C17:default-missing", "default %r is not added at %r although no row of its kind is there"
-                                % (row, list(path)), plain(exp), plain(m)))
+                    out.append((prefix + "default-missing", "default %r is not added at %r although no row of its kind is there%s"
+                                % (row, list(path), note), plain(exp), plain(m)))
             else:
                 walk(tt.get(row, odict()), mm[row], ee[row], path + (row,))
     walk(t, m, exp, ())
+    return out
+
+
+def check_completion(hwi, t):
+    """-> list of (key, text, expected, actual)"""
+    c = context(hwi)
+    m = complete(t, c)
+    exp = expected_completion(t, c["rules"])
+    out = compare_completion(t, m, exp, applicable_defaults(t, c["rules"]))
     # idempotence
     m2 = complete(m, c)
     if plain(m2) != plain(m):
         out.append(("bounded:C17:not-idempotent", "completing the completed tree adds rows", plain(m), plain(m2)))
     return out, m
+
+
+# ---------------------------------------------------------------- several devices served by one process
+# What the default table depends on: annet.implicit._implicit_tree / compile_rules read device.hw and device.tags (nothing
+# else). Devices that share the model string but differ in the tags are served one after the other by ONE fresh process
+# (a child of this one), in both orders; the expected table of each device comes from an own reading of the default text
+# that a separate fresh process, serving only that device, hands out.
+SEQUENCE_GROUPS = [
+    [("Cisco Nexus 9508", ("spine1",)), ("Cisco Nexus 9508", ())],
+    [("Cisco Nexus 9508", ("spine1",)), ("Cisco Nexus 9508", ()), ("Cisco Nexus 9508", ("spine1", "other"))],
+]
+
+
+def _child(payload):
+    import json
+    import os
+    import subprocess
+    import sys
+    r = subprocess.run([sys.executable, "-m", "bounded.c17", "--child"], input=json.dumps(payload), capture_output=True, text=True,
+                       env=dict(os.environ), cwd=os.path.dirname(os.path.dirname(os.path.abspath(__file__))), timeout=600)
+    if r.returncode != 0:
+        raise RuntimeError("child failed: %s" % r.stderr[-800:])
+    return json.loads(r.stdout.splitlines()[-1])
+
+
+def _child_main():
+    """fresh process: {"mode": "text", "device": [model, tags]} -> the default text of the device;
+    {"mode": "seq", "devices": [[model, tags], ...], "trees": [t, ...]} -> for every tree, for every device IN ORDER:
+    merge_dicts(t, implicit.config(t, implicit.compile_rules(device))) and the same once more on the result"""
+    import json
+    import sys
+    from annet import implicit
+    from annet.annlib.lib import merge_dicts
+    from annet.annlib.netdev.views.hardware import HardwareView
+    req = json.loads(sys.stdin.read())
+    if req["mode"] == "text":
+        model, tags = req["device"]
+        out = default_text(_Dev(HardwareView(model, None), tags))
+    else:
+        out = []
+        for t in req["trees"]:
+            row = []
+            for (model, tags) in req["devices"]:
+                dev = _Dev(HardwareView(model, None), tags)
+                tt = _to_odict(t)
+                m = merge_dicts(tt, implicit.config(tt, implicit.compile_rules(dev)))
+                m2 = merge_dicts(m, implicit.config(m, implicit.compile_rules(dev)))
+                row.append([plain(m), plain(m2)])
+            out.append(row)
+    sys.stdout.write("\n" + json.dumps(out) + "\n")
+
+
+_dev_rules = {}
+
+
+def device_rules(model, tags):
+    """own reading of the default table of ONE device, text taken from a fresh process that serves only this device"""
+    k = (model, tuple(tags))
+    if k not in _dev_rules:
+        _dev_rules[k] = read_rules(_child(dict(mode="text", device=[model, list(tags)])))
+    return _dev_rules[k]
+
+
+def sequences():
+    """every ordered pair of different devices of a group, and the whole group forwards and backwards"""
+    out = []
+    for g in SEQUENCE_GROUPS:
+        cand = [list(x) for x in itertools.permutations(g, 2)] + [list(g), list(reversed(g))]
+        for seq in cand:
+            j = [[m, list(tg)] for (m, tg) in seq]
+            if j not in out:
+                out.append(j)
+    return out
+
+
+def sequence_trees(seq, tier):
+    """trees over the words of ALL tables of the sequence (the union), so that rows only another device of the sequence has
+    defaults for are present"""
+    rules = []
+    seen = set()
+    for (m, tg) in seq:
+        for r in device_rules(m, tg):
+            if r.row not in seen:
+                seen.add(r.row)
+                rules.append(r)
+    return [x for x in trees(rules, "no", 1, 2 if tier == "quick" else 3)]
+
+
+def check_sequence(seq, tree_list):
+    """-> one result list per tree"""
+    res = _child(dict(mode="seq", devices=seq, trees=[plain(t) for t in tree_list]))
+    outs = []
+    for t, per_dev in zip(tree_list, res):
+        out = []
+        for n, ((model, tags), (m, m2)) in enumerate(zip(seq, per_dev)):
+            rules = device_rules(model, tags)
+            note = " (device #%d %s tags=%s, served after %s in one process)" % (n + 1, model, tags, [d for d in seq[:n]] or "nothing")
+            out.extend(compare_completion(t, _to_odict(m), expected_completion(t, rules), applicable_defaults(t, rules),
+                                          prefix="bounded:C17:seq:", note=note))
+            if m2 != m:
+                out.append(("bounded:C17:seq:not-idempotent", "completing the completed tree adds rows" + note, m, m2))
+        outs.append(out)
+    return outs
 
 
 def core(row, neg):
@@ -632,6 +740,16 @@ def cases(tier, seed, part, nparts):
                 yield dict(kind="pair+tree", hw=hwi, t=t, u=u)
 
 
+def seq_cases(tier, part, nparts, start):
+    """(Q) device sequences; yields (index after, case)"""
+    i = start
+    for seq in sequences():
+        for t in sequence_trees(seq, tier):
+            i += 1
+            if i % nparts == part:
+                yield dict(kind="seq", hw=None, devices=seq, t=t)
+
+
 def _all_rules(rules):
     for r in rules:
         yield r
@@ -643,6 +761,8 @@ def _to_odict(d):
 
 
 def check_case(case):
+    if case["kind"] == "seq":
+        return check_sequence(case["devices"], [_to_odict(case["t"])])[0]
     hwi = case["hw"]
     out = []
     if case["kind"] == "samples":
@@ -709,6 +829,23 @@ def run(tier="quick", seed=0, part=0, nparts=1):
             per_key[key] = per_key.get(key, 0) + 1
             if per_key[key] <= 3:
                 failures.append(dict(key=key, text=text, case=jcase, expected=exp, actual=act))
+    # (Q) sequences of devices in one fresh process: the trees of this part are handed to one child per sequence
+    by_seq = odict()
+    for case in seq_cases(tier, part, nparts, -1):
+        by_seq.setdefault(repr(case["devices"]), []).append(case)
+    for cs in by_seq.values():
+        seq = cs[0]["devices"]
+        outs = check_sequence(seq, [c["t"] for c in cs])
+        for case, res in zip(cs, outs):
+            ev += 1
+            jcase = dict(kind="seq", devices=seq, t=plain(case["t"]))
+            exps = set(repr(plain(expected_completion(case["t"], device_rules(m, tg)))) for (m, tg) in seq)
+            if len(exps) > 1:      # the devices of the sequence are owed different completions of this tree
+                nontrivial.add(h(jcase))
+            for (key, text, exp, act) in res:
+                per_key[key] = per_key.get(key, 0) + 1
+                if per_key[key] <= 3:
+                    failures.append(dict(key=key, text=text, case=jcase, expected=exp, actual=act))
     tt = "<= 2 root rows x <= 2 rows per block" if tier == "quick" else "<= 2 root rows x <= 3 rows per block, and 3 root rows x <= 1 row per block"
     pp = 1 if tier == "quick" else 3
     return dict(evaluations=ev, nontrivial=sorted(nontrivial), failures=failures, samples=samples,
@@ -721,14 +858,24 @@ def run(tier="quick", seed=0, part=0, nparts=1):
                      "api._diff_and_patch: every non-empty t with <= 1 root row x <= 1 row per block as device text, in clear mode "
                      "(no_new) and in normal mode with u in {nothing, every %s tree of the family, t}: old/new == completions, no diff "
                      "entry / command for a default in neither text; (R) seeded random trees (<= 5 root rows) with u = random edit of "
-                     "t, completion + patch checks. non-trivial = some "
+                     "t, completion + patch checks; (Q) devices that share the model string and differ in tags (what _implicit_tree "
+                     "reads besides hw): Nexus 9508 with tags spine1 / none / spine1+other, every ordered pair and the whole group both "
+                     "ways, each sequence served by ONE fresh child process, trees with <= 1 root row over the union of the tables; each "
+                     "device's completion against the own reading of its default text fetched from a separate fresh process serving only "
+                     "that device (non-trivial: the devices are owed different completions). non-trivial = some "
                      "applicable default is suppressed by an explicit row or added under an explicit block (pairs: and t != u); distinct by "
                      "(hw, t, u)" % (tt, pp, " (quick: each unordered pair once, direction alternating)" if tier == "quick" else "",
                                      "10th" if tier == "quick" else "3rd"),
                 bound="%s (completion); all pairs of trees with <= 1 root row x <= %d rows per block (patch); annet.gen on <= 1 root row x <= 1 "
-                      "row per block, both modes; random beyond" % (tt, pp))
+                      "row per block, both modes; device sequences sharing a model string (both orders); random beyond" % (tt, pp))
 
 
 def replay(case):
     res = check_case(case)
     return dict(ok=not res, expected=[r[2] for r in res][:3], actual=[r[3] for r in res][:3], keys=[r[0] for r in res])
+
+
+if __name__ == "__main__":
+    import sys as _sys
+    if "--child" in _sys.argv:
+        _child_main()
